@@ -274,9 +274,23 @@ pub fn check_program(p: &Program, st: &mut Stats, order: u64, part: &str) -> Opt
             }
         }
     }
+    let rich = p.comment.is_some() || !matches!(part, "date-sweep" | "time-sweep" | "perm-sweep") || order % 64 == 0;
+    // the same program with every FileOptions setter called twice (another value first) and with every write handed over
+    // through write_vectored: byte-identical archives
+    if rich && p.entries.len() < 1000 && bytes_f.len() < 100_000 {
+        let (r2, b2) = with_setters_twice(|| exec(&calls_f, &[]));
+        if r2 != res_f || b2 != bytes_f {
+            ok = false;
+            bad("options-set-twice", None, "with every FileOptions setter called twice (the earlier value first) the archive differs".into(), st);
+        }
+        let (r3, b3) = with_vectored_writes(|| exec(&calls_f, &[]));
+        if r3 != res_f || !same_archive_modulo_compression(&b3, &bytes_f) {
+            ok = false;
+            bad("write_vectored", None, "with the contents handed over through write_vectored the archive differs (in more than the compressed form)".into(), st);
+        }
+    }
     // the same bytes through sources that hand out data in pieces (a Read + Seek source may return short reads), and
     // the lookups by name for names written exactly once (duplicates: C03 states which one wins)
-    let rich = p.comment.is_some() || !matches!(part, "date-sweep" | "time-sweep" | "perm-sweep") || order % 64 == 0;
     if rich && p.entries.len() < 1000 {
         let mut via: Vec<(String, Result<ObsArchive, RErr>)> = vec![];
         let chunks: &[usize] = if bytes_f.len() <= 1500 { &[1, 7] } else { &[4093] };
